@@ -6,6 +6,8 @@ CONSTANTS
   ClearsLongData = TRUE
   RemoveOnClose = TRUE
   ReprepareFresh = FALSE
+  ClearsOnlyOwn = TRUE
+  KeepsEmptyLong = TRUE
 INVARIANTS P_Registry P_Agree
 VIEW view
 CHECK_DEADLOCK FALSE
